@@ -6,6 +6,7 @@ import (
 	"net/http"
 	"net/http/httptest"
 	"net/url"
+	"regexp"
 	"strings"
 
 	"github.com/gookit/rux"
@@ -193,6 +194,44 @@ func pathFinish(s *Summary) {
 						desc["what"] = fmt.Sprintf("route registered as %q (path %q), request path %q (normal form %q), strict=%s: reached=%v, spec %v",
 							p, regNorm, q, tokStr(tq.Req[st]), st, rt != nil, want)
 						s.mismatch(desc, []any{tp.P, tq.P})
+					}
+				})
+			}
+		}
+	}
+	// the same relation for DYNAMIC routes on a caching router: all request texts one after the other on one router (the
+	// spellings of one URL follow each other), each twice; the model's normal form of the request decides which route it is
+	segRe, segSlashRe := regexp.MustCompile(`^/a/[^/]+$`), regexp.MustCompile(`^/a/[^/]+/$`)
+	for _, st := range []string{"T", "F"} {
+		for _, capacity := range []int{1, 64} {
+			rc := newRouter(append(strictOpts(st), cachingOpts(capacity)...)...)
+			rc.GET("/a/{v}", nopHandler)
+			if st == "T" {
+				rc.GET("/a/{v}/", nopHandler)
+			}
+			for _, tq := range pathSt.texts {
+				q, nf := tokStr(tq.P), tokStr(tq.Req[st])
+				want := ""
+				if segRe.MatchString(nf) {
+					want = "/a/{v}"
+				} else if st == "T" && segSlashRe.MatchString(nf) {
+					want = "/a/{v}/"
+				}
+				desc := map[string]any{"kind": "path", "aspect": "reach", "strict": st == "T", "request": q}
+				guard(s, desc, tq.P, func() {
+					for pass := 1; pass <= 2; pass++ {
+						rt, _, _ := rc.Match("GET", q)
+						s.Compared++
+						got := ""
+						if rt != nil {
+							got = rt.Path()
+						}
+						if got != want {
+							desc["what"] = fmt.Sprintf("caching router (capacity %d, strict=%s) with the dynamic routes /a/{v}%s: request path %q (normal form %q), pass %d: reached %q, spec %q",
+								capacity, st, map[bool]string{true: " and /a/{v}/", false: ""}[st == "T"], q, nf, pass, got, want)
+							s.mismatch(desc, tq.P)
+							return
+						}
 					}
 				})
 			}
